@@ -149,20 +149,18 @@ Lemma wf_tmap_rev : forall l, wf_tmap l -> wf_tmap (rev l).
 Proof. intros l H. unfold wf_tmap in *. rewrite Forall_forall in *. intros x Hx. apply H. apply in_rev. assumption. Qed.
 
 (* the pairs recorded by an add are (negative temp id, positive allocated id) *)
-Lemma fill_pairs_wf : forall req n out, 1 <= n -> fill n req = PyOk out -> wf_tmap (temp_pairs req out).
+Lemma shape_pairs_wf : forall n req out, 1 <= n ->
+  Forall2 (fun r o => match explicit r with Some z => o = z | None => n <= o end) req out ->
+  wf_tmap (temp_pairs req out).
 Proof.
-  induction req as [|r t IH]; intros n out Hn H.
-  - cbn in H. inversion H; subst. constructor.
-  - destruct (explicit r) as [z|] eqn:He.
-    + destruct (fill_cons_explicit _ _ _ _ _ He H) as [_ [o' [-> Ht]]].
-      destruct (explicit_some _ _ He) as [-> Hz]. cbn [temp_pairs].
-      replace (z <? 0) with false by (symmetry; apply Z.ltb_ge; assumption).
-      apply (IH (Z.max n z + 1)); [lia|assumption].
-    + destruct (fill_cons_auto _ _ _ _ He H) as [o' [-> Ht]]. cbn [temp_pairs].
-      assert (Hrec : wf_tmap (temp_pairs t o')) by (apply (IH (n + 1)); [lia|assumption]).
-      destruct r as [z|]; [|assumption]. destruct (z <? 0) eqn:Hz; [|assumption].
-      constructor; [cbn [fst snd]; split; [apply Z.ltb_lt; assumption|lia]|assumption].
+  intros n req out Hn F. induction F as [|r o req' out' Hro _ IH]; [constructor|].
+  cbn [temp_pairs]. destruct r as [z|]; [|assumption]. destruct (z <? 0) eqn:Hz; [|assumption].
+  cbn [explicit] in Hro. rewrite Hz in Hro.
+  constructor; [cbn [fst snd]; split; [apply Z.ltb_lt; assumption|lia]|assumption].
 Qed.
+
+Lemma alloc_pairs_wf : forall req n out, 1 <= n -> alloc n req = PyOk out -> wf_tmap (temp_pairs req out).
+Proof. intros req n out Hn H. eapply shape_pairs_wf; [eassumption|apply alloc_shape; assumption]. Qed.
 
 (* ================================================================================================ *)
 (* Part B: Ref / RefList values                                                                     *)
@@ -308,14 +306,14 @@ Qed.
 Lemma step_add_inv : forall s st t ids rv lv st' r,
   step s st (AAdd t ids rv lv) = PyOk (st', r) ->
   exists out rv' lv',
-    fill (next_row_id (table_ids (get_table (st_doc st) t))) ids = PyOk out /\ r = RetIds out /\
+    alloc (next_row_id (table_ids (get_table (st_doc st) t))) ids = PyOk out /\ r = RetIds out /\
     st_maps st' = set_map (st_maps st) t (map_update (st_maps st t) ids out) /\
     prepare_opt prepare_ref (st_maps st' (ref_target s t)) rv = PyOk rv' /\
     prepare_opt prepare_reflist (st_maps st' (list_target s t)) lv = PyOk lv' /\
     st_doc st' = set_table (st_doc st) t (fold_left put_row (new_rows out rv' lv') (get_table (st_doc st) t)).
 Proof.
   intros s st t ids rv lv st' r H. cbn [step] in H.
-  destruct (fill (next_row_id (table_ids (get_table (st_doc st) t))) ids) as [out|] eqn:Hf; [|discriminate].
+  destruct (alloc (next_row_id (table_ids (get_table (st_doc st) t))) ids) as [out|] eqn:Hf; [|discriminate].
   destruct (prepare_opt prepare_ref _ rv) as [rv'|] eqn:Hr; [|discriminate].
   destruct (prepare_opt prepare_reflist _ lv) as [lv'|] eqn:Hl; [|discriminate].
   destruct (existsb _ out); [discriminate|]. inversion H; subst. cbn [st_maps st_doc].
@@ -359,7 +357,7 @@ Proof.
   - destruct (step_add_inv _ _ _ _ _ _ _ _ H) as [out [rv' [lv' [Hf [_ [Hm _]]]]]]. rewrite Hm.
     intros t'. unfold set_map. destruct (t' =? t); [|apply Hwf].
     rewrite map_update_pairs. apply wf_tmap_app; [|apply Hwf]. apply wf_tmap_rev.
-    eapply fill_pairs_wf; [apply next_row_id_pos|eassumption].
+    eapply alloc_pairs_wf; [apply next_row_id_pos|eassumption].
   - destruct (step_other_maps _ _ _ _ _ H) as [-> _]; [intros; discriminate|assumption].
   - destruct (step_other_maps _ _ _ _ _ H) as [-> _]; [intros; discriminate|assumption].
 Qed.
@@ -423,10 +421,10 @@ Proof.
   induction ids as [|i ids IH]; intros rv lv; [reflexivity|]. cbn [new_rows map r_id]. rewrite IH. reflexivity.
 Qed.
 
-Lemma fill_auto_positive : forall req n out i a f, 1 <= n -> fill n req = PyOk out ->
+Lemma alloc_auto_positive : forall req n out i a f, 1 <= n -> alloc n req = PyOk out ->
   nth_error req i = Some (Some a) -> a < 0 -> nth_error out i = Some f -> 0 < f.
 Proof.
-  intros req n out i a f Hn Hf Hr Ha Ho. pose proof (fill_shape _ _ _ Hf) as Hsh. clear Hf. revert i Hr Ho.
+  intros req n out i a f Hn Hf Hr Ha Ho. pose proof (alloc_shape _ _ _ Hn Hf) as Hsh. clear Hf. revert i Hr Ho.
   induction Hsh as [|r o req' out' Hro _ IH]; intros i Hr Ho; [destruct i; discriminate|].
   destruct i as [|i]; cbn [nth_error] in Hr, Ho; [|eapply IH; eassumption].
   inversion Hr; inversion Ho; subst. cbn [explicit] in Hro.
@@ -445,7 +443,7 @@ Proof.
   inversion E; subst out'. split.
   - rewrite Hm. unfold set_map. rewrite Z.eqb_refl. eapply translate_after_update; eassumption.
   - rewrite Hd, get_set_table by assumption.
-    assert (Hp : 0 < f) by (eapply fill_auto_positive; [apply next_row_id_pos|eassumption..]).
+    assert (Hp : 0 < f) by (eapply alloc_auto_positive; [apply next_row_id_pos|eassumption..]).
     unfold row_in. apply andb_true_iff. split; [apply Z.ltb_lt; assumption|]. apply mem_In.
     apply put_rows_ids. right. rewrite new_rows_ids. split; [eapply nth_error_In; eassumption|assumption].
 Qed.
